@@ -35,6 +35,8 @@ class CountSpec(Spec):
         self.errors = {}
         self.ev = evaluator(body)
         self.seen_events = set()
+        self.closure_while_pending = False
+        self.returns_pending = False
 
     def initial(self):
         return "clean"
@@ -57,6 +59,11 @@ class CountSpec(Spec):
     def on_call(self, pt, c, ts, env):
         if pt in self.call_events:
             return self.event(ts, pt, self.call_events[pt])
+        from .protocol import user_closure_call
+        if ts == "pending" and user_closure_call(c):
+            self.err(pt, "a caller-supplied closure runs between %s an entry and the adjustment of the count: if it panics, len() stays wrong for good"
+                     % ("linking" if self.sign > 0 else "unlinking"))
+            self.closure_while_pending = True
         if c.resolved == self.add_count_id:
             d = self.ev.operand(c.args[1])
             if d is not TOP and d.is_const():
@@ -82,6 +89,7 @@ class CountSpec(Spec):
 
     def on_return(self, pt, ts, env):
         if ts == "pending":
+            self.returns_pending = True
             self.err(pt, "a path returns after an entry was %s without adjusting the count" % ("linked" if self.sign > 0 else "unlinked"))
 
 
@@ -148,21 +156,69 @@ def removal_events(facts, b):
     return calls, {}
 
 
-def run_count(ctx, facts, b, sign, calls, edges, min_events):
+def run_count(ctx, facts, b, sign, calls, edges, min_events, lift_ok=False):
     ac = facts.body("map::HashMap::add_count")
     spec = CountSpec(b, sign, calls, edges, ac.id)
     Esp(b, spec).run()
     what = "count %s once per %s" % ("+1" if sign > 0 else "-1", "link" if sign > 0 else "unlink")
     if len(calls) + len(edges) < min_events:
-        ctx.inst("Q1", b, what, b.span, False, "expected at least %d %s events, found %d (%s)" % (
-            min_events, "link" if sign > 0 else "unlink", len(calls) + len(edges), sorted(set(calls.values()) | set(edges.values()))))
-        return
+        ctx.fail_closed("Q1: expected at least %d %s events in %s, found %d (%s)" % (
+            min_events, "link" if sign > 0 else "unlink", strip_generics(b.id), len(calls) + len(edges), sorted(set(calls.values()) | set(edges.values()))))
+        return spec
+    if lift_ok and spec.errors and all("returns after an entry" in why for (_, why) in spec.errors) and not b.exported:
+        return spec   # an internal helper that unlinks and leaves the counting to its callers: judged at its call sites
     if spec.errors:
         for (pt, why) in list(spec.errors)[:3]:
             ctx.inst("Q1", b, what, b.span_at(pt), False, why)
     else:
         ctx.inst("Q1", b, what, b.span, True, "%d event site(s) (%s); every path from an event passes exactly one add_count, none without" % (
             len(calls) + len(edges), ", ".join(sorted(set(calls.values()) | set(edges.values())))))
+    return spec
+
+
+def find_removal_bodies(facts):
+    """bodies that unlink entries from the map (not the copy routines, which retire superseded copies of still-present entries)"""
+    out = []
+    for b in facts.bodies:
+        if b.sid.endswith("TreeBin::remove_tree_node") or b.name == "clear":
+            continue
+        if any(callee_str(c).endswith("clone") and c.callee.get("self_ty", {}).get("base") == "reclaim::Atomic" for c in b.calls):
+            continue
+        c, e = removal_events(facts, b)
+        if c:
+            out.append((b, c, e))
+    return out
+
+
+def lifted_count_check(ctx, facts, uncounted, rule="Q1"):
+    """helpers that unlink an entry and leave the counting to their callers: every caller adjusts the count after the call, and no
+    caller-supplied closure runs in between"""
+    from .callgraph import callgraph
+    from .protocol import user_closure_call
+    from .analysis import return_points
+    cg = callgraph(facts)
+    ac = facts.body("map::HashMap::add_count")
+    for u in uncounted:
+        callers = [(cid, via) for cid, via in cg.callers(u.id) if hasattr(via, "point")]
+        if not callers:
+            ctx.inst(rule, u, "unlink left uncounted", u.span, False, "%s unlinks an entry without adjusting the count and nobody calls it" % strip_generics(u.id))
+        for cid, via in callers:
+            g = facts.by_id[cid]
+            if g.is_cleanup(via.b):
+                continue
+            counts = {c.point for c in g.calls if c.resolved == ac.id}
+            r = reach(g, after(g, via.point, label="ret"), avoid=counts)
+            clos = [c for c in g.calls if c.point in r and user_closure_call(c) and not g.is_cleanup(c.b)]
+            if clos:
+                ctx.inst(rule, g, "callback between unlink and count adjustment", clos[0].span, False,
+                         "%s removes an entry through %s (which leaves the count to its caller) and then runs a caller-supplied closure at %s before "
+                         "add_count: if the closure panics the removed entries are never subtracted and len()/is_empty() stay wrong for good"
+                         % (strip_generics(g.id), strip_generics(u.id).rsplit("::", 1)[-1], clos[0].span))
+            elif not counts:
+                ctx.inst(rule, g, "unlink left uncounted", via.span, False, "%s removes an entry through %s but never calls add_count" % (
+                    strip_generics(g.id), strip_generics(u.id).rsplit("::", 1)[-1]))
+            else:
+                ctx.inst(rule, g, "count adjusted after the helper", via.span, True, "add_count follows %s with no user callback in between" % strip_generics(u.id).rsplit("::", 1)[-1])
 
 
 def rule_q1_clear(ctx, facts):
@@ -171,8 +227,11 @@ def rule_q1_clear(ctx, facts):
     ac = facts.body("map::HashMap::add_count")
     an = anchors(facts)
     acs = [c for c in cl.calls if c.resolved == ac.id and not cl.is_cleanup(c.b)]
+    if len(acs) == 0:
+        ctx.inst("Q1", cl, "clear hands its delta to add_count", cl.span, False, "clear never calls add_count: the entries it removes are not subtracted from the count")
+        return
     if len(acs) != 1:
-        ctx.inst("Q1", cl, "clear hands its delta to add_count", cl.span, False, "expected one add_count call in clear, found %d" % len(acs))
+        ctx.fail_closed("Q1: expected one add_count call in clear, found %d" % len(acs))
         return
     dl = op_root(acs[0].args[1])
     fl = flow(cl)
@@ -233,7 +292,7 @@ def rule_q1_clear(ctx, facts):
                     ctx.inst("Q1", cl, "head node counted", h.span, not back_to_loop,
                              "the head node's removal is counted before the next bin" if not back_to_loop else "the head node of a list bin is retired without decrementing delta")
     if n_loops < 2:
-        ctx.inst("Q1", cl, "walk loops", cl.span, False, "expected the two node-walk loops of clear, found %d" % n_loops)
+        ctx.fail_closed("Q1: expected the two node-walk loops of clear, found %d" % n_loops)
 
 
 def pow2(body, op, facts, depth=0, seen=None, at=None):
@@ -343,10 +402,15 @@ def run(ctx, facts):
     put = facts.body("map::HashMap::put")
     c, e = put_events(facts, put)
     run_count(ctx, facts, put, +1, c, e, 3)
-    for name in ("map::HashMap::compute_if_present", "map::HashMap::replace_node"):
-        b = facts.body(name)
-        c, e = removal_events(facts, b)
-        run_count(ctx, facts, b, -1, c, e, 2)
+    removal_bodies = find_removal_bodies(facts)
+    if len(removal_bodies) < 2:
+        ctx.fail_closed("Q1: expected at least two bodies that unlink entries (compute_if_present, replace_node), found %d" % len(removal_bodies))
+    uncounted = []
+    for b, c, e in removal_bodies:
+        spec = run_count(ctx, facts, b, -1, c, e, 2, lift_ok=True)
+        if spec is not None and spec.returns_pending and not b.exported and all("returns after an entry" in why for (_, why) in spec.errors):
+            uncounted.append(b)
+    lifted_count_check(ctx, facts, uncounted)
     rule_q1_clear(ctx, facts)
     from .rules_c10 import rule_z1
     before = len(ctx.instances)
